@@ -646,9 +646,13 @@ def _lc(s: str) -> str:
 
 
 def _templates_mentioning(module: pf.Module, word: str) -> List[sf.Template]:
-    """sqlfront.templates_in(module, must_contain=[word]) with the cheap textual pre-filter applied first."""
+    """sqlfront.templates_in(module, must_contain=[word]) with the cheap textual pre-filter applied first.  A literal that is one piece
+    of a concatenation is read as the whole concatenation; the text of a module-level constant (`_SQL = '...'`, pieces and other
+    constants resolved by engines/c06c14sql) is attributed to every function of the module that mentions the constant."""
+    from . import c06c14sql as sq
     out: List[sf.Template] = []
     par = module.parents()
+    seen: Set[int] = set()
     for node in ast.walk(module.tree):
         if isinstance(node, ast.Constant):
             if not (isinstance(node.value, str) and word in node.value):
@@ -661,11 +665,42 @@ def _templates_mentioning(module: pf.Module, word: str) -> List[sf.Template]:
         p = par.get(node)
         if isinstance(p, (ast.JoinedStr, ast.FormattedValue, ast.Expr)):
             continue
+        top: ast.AST = node
+        while isinstance(par.get(top), ast.BinOp) and isinstance(par[top].op, ast.Add):
+            top = par[top]
+        if id(top) in seen:
+            continue
+        seen.add(id(top))
         fn = module.enclosing_func(node)
-        sql, holes, _how = sf._sql_of_expr(fn, node)
+        if top is node:
+            sql, holes, _how = sf._sql_of_expr(fn, node)
+        else:
+            sql, holes = sq.sql_of_expr(module, fn, top)  # type: ignore[arg-type]
         if sql is None or not sf._SQLISH.search(sql) or word not in sql:
             continue
-        out.append(sf.Template(module, fn, node, sql, holes))
+        st = par.get(top)
+        name = None
+        if fn is None and isinstance(st, ast.Assign) and len(st.targets) == 1 and isinstance(st.targets[0], ast.Name) and st in module.tree.body:
+            name = st.targets[0].id
+        elif fn is None and isinstance(st, ast.AnnAssign) and isinstance(st.target, ast.Name) and st in module.tree.body:
+            name = st.target.id
+        users: List[pf.FuncDef] = []
+        piece_only = False
+        if name is not None and sq.module_constants(module).get(name) is not None:
+            for n in ast.walk(module.tree):
+                if isinstance(n, ast.Name) and n.id == name and isinstance(n.ctx, ast.Load):
+                    u = module.enclosing_func(n)
+                    if u is None:
+                        piece_only = True  # spliced into another module-level constant, which is read as a whole
+                    elif not any(u is x for x in users):
+                        users.append(u)
+        if piece_only and not users:
+            continue
+        if users:
+            for u in users:
+                out.append(sf.Template(module, u, top, sql, holes))  # type: ignore[arg-type]
+        else:
+            out.append(sf.Template(module, fn, top, sql, holes))  # type: ignore[arg-type]
     return out
 
 
@@ -1132,3 +1167,379 @@ class BatchScope:
         good = {find('PARAM'), find('LINK')}
         unscoped = [a for a in scoped if find(a) not in good]
         return {'tables': scoped, 'unscoped': unscoped, 'params': params, 'holes': holes}
+
+
+# ================================================================================================
+# 4. gates: what a wrapper lets through to the handler it wraps
+# ================================================================================================
+#
+# A wrapper (`wrapped` inside a decorator) must not reach the call of the wrapped handler unless a requirement over a few ATOMS holds
+# (the caller is a developer, the account is active, the membership test succeeded ...).  Decided by exhaustive enumeration of the
+# truth table over the atoms the wrapper's conditions test (a finite abstract domain): under every consistent valuation that violates
+# the requirement the CFG is walked with the branch conditions evaluated three-valued (an expression that is not built from recognised
+# atoms is unknown: both branches).  The handler call is
+#     definitely reachable  (every condition on some path is decided, or the call is reached whichever way the undecided ones go)
+#                           -> the requirement is not enforced: a violation, with the valuation as witness;
+#     possibly reachable    (only through conditions this analysis does not understand) -> declined;
+#     unreachable           -> enforced.
+# How the condition is spelt (guard clause / positive branch, De Morgan, `!=` / `not ==`, a boolean local, a raising helper of the
+# module that is inlined first) does not matter.
+
+def find_wrapped(m: pf.Module, deco: pf.FuncDef) -> Optional[Tuple[pf.FuncDef, pf.FuncDef, str]]:
+    """Inside a decorator (factory) `deco`: (wrapper, the function that receives the handler, name of that parameter) for the unique
+    nested function that calls a parameter of an enclosing function of the decorator; None when there is none or several."""
+    found = []
+    for w in ast.walk(deco):
+        if w is deco or not isinstance(w, (ast.FunctionDef, ast.AsyncFunctionDef)):
+            continue
+        own = {a.arg for a in w.args.posonlyargs + w.args.args + w.args.kwonlyargs}
+        e = m.enclosing_func(w)
+        while e is not None:
+            ps = [a.arg for a in e.args.posonlyargs + e.args.args]
+            hit = [p for p in ps if p not in own and any(isinstance(c, ast.Call) and isinstance(c.func, ast.Name) and c.func.id == p for c in pf.walk_shallow(w))]
+            if hit:
+                found.append((w, e, hit[0]))
+                break
+            if e is deco:
+                break
+            e = m.enclosing_func(e)
+    return found[0] if len(found) == 1 else None
+
+
+def inlined_copy(m: pf.Module, qual: str, exclude: Tuple[str, ...] = ()) -> Tuple[pf.Module, pf.FuncDef]:
+    """(module copy, function) with the statement-level calls of module-level helper functions inlined into the function `qual`
+    (engines/inline.py); the original when nothing can be inlined."""
+    from . import inline as il
+    try:
+        m2, inl = il.inline_functions(m, qual, exclude=exclude)
+        if inl.inlined:
+            return m2, m2.func(qual)
+    except Exception:  # the inliner declines by leaving calls alone; anything else: analyse the function as written
+        pass
+    return m, m.func(qual)
+
+
+class Gate:
+    def __init__(self, m: pf.Module, fn: pf.FuncDef, handler: str, role):
+        """role(fn, expr) -> a stable subject key for the expressions the requirement talks about (or None)."""
+        self.m = m
+        self.fn = fn
+        self.g = pf.cfg(fn)
+        self.role = role
+        self.calls = self.g.find(lambda n: any(isinstance(c.func, ast.Name) and c.func.id == handler for c in pf.node_calls(n)))
+        self.atoms: List[tuple] = []
+        for n in self.g.nodes:
+            if n.kind == 'test' and n.ast is not None:
+                self._collect(n.ast)
+
+    # ---- atoms
+    def atom(self, e: ast.AST) -> Optional[Tuple[tuple, bool]]:
+        """(atom key, polarity) of a leaf condition; None when it is not about a recognised subject."""
+        if isinstance(e, ast.Compare) and len(e.ops) == 1 and isinstance(e.ops[0], (ast.Eq, ast.NotEq)):
+            a, b = e.left, e.comparators[0]
+            if isinstance(a, ast.Constant) and not isinstance(b, ast.Constant):
+                a, b = b, a
+            if isinstance(b, ast.Constant) and isinstance(b.value, (int, str)) and not isinstance(b.value, bool):
+                r = self.role(self.fn, a)
+                if r is not None:
+                    return ('eq', r, b.value), isinstance(e.ops[0], ast.Eq)
+            return None
+        if isinstance(e, (ast.Compare, ast.BoolOp, ast.UnaryOp, ast.Constant)):
+            return None
+        r = self.role(self.fn, e)
+        if r is not None:
+            return ('truthy', r), True
+        return None
+
+    def _expand(self, e: ast.AST) -> ast.AST:
+        return pf.expand_locals(self.fn, e, 4)
+
+    def _collect(self, e: ast.AST, depth: int = 0) -> None:
+        e = self._expand(e) if depth == 0 else e
+        if isinstance(e, ast.BoolOp):
+            for v in e.values:
+                self._collect(v, depth + 1)
+            return
+        if isinstance(e, ast.UnaryOp) and isinstance(e.op, ast.Not):
+            self._collect(e.operand, depth + 1)
+            return
+        a = self.atom(e)
+        if a is not None and a[0] not in self.atoms:
+            self.atoms.append(a[0])
+
+    def ev(self, e: ast.AST, val: Dict[tuple, bool], top: bool = True) -> Optional[bool]:
+        if top:
+            e = self._expand(e)
+        if isinstance(e, ast.BoolOp):
+            vs = [self.ev(v, val, False) for v in e.values]
+            if isinstance(e.op, ast.And):
+                return False if any(v is False for v in vs) else (None if any(v is None for v in vs) else True)
+            return True if any(v is True for v in vs) else (None if any(v is None for v in vs) else False)
+        if isinstance(e, ast.UnaryOp) and isinstance(e.op, ast.Not):
+            v = self.ev(e.operand, val, False)
+            return None if v is None else (not v)
+        if isinstance(e, ast.Constant) and isinstance(e.value, (bool, int, str, type(None))):
+            return bool(e.value)
+        a = self.atom(e)
+        if a is not None and a[0] in val:
+            return val[a[0]] == a[1]
+        return None
+
+    # ---- valuations
+    @staticmethod
+    def consistent(val: Dict[tuple, bool]) -> bool:
+        by_subj: Dict[Any, List[Tuple[tuple, bool]]] = {}
+        for k, v in val.items():
+            by_subj.setdefault(k[1], []).append((k, v))
+        for subj, items in by_subj.items():
+            true_eq = [k[2] for k, v in items if k[0] == 'eq' and v]
+            if len(set(true_eq)) > 1:
+                return False
+            tr = [v for k, v in items if k[0] == 'truthy']
+            if tr and true_eq and bool(true_eq[0]) != tr[0]:
+                return False
+        return True
+
+    def valuations(self, extra: Sequence[tuple]) -> List[Dict[tuple, bool]]:
+        keys = list(dict.fromkeys(list(extra) + self.atoms))
+        if len(keys) > 10:
+            raise AnalysisError(f'{self.m.rel}::{self.m.qualname(self.fn)}: {len(keys)} atomic conditions: truth table too large')
+        out = []
+        for bits in range(1 << len(keys)):
+            val = {k: bool(bits >> i & 1) for i, k in enumerate(keys)}
+            if self.consistent(val):
+                out.append(val)
+        return out
+
+    # ---- reachability of the handler call under a valuation
+    def reach(self, val: Dict[tuple, bool]) -> str:
+        """'definite' | 'possible' | 'no'"""
+        g = self.g
+        targets = {n.id for n in self.calls}
+        decided: Dict[int, Optional[bool]] = {}
+        for n in g.nodes:
+            if n.kind == 'test' and n.ast is not None:
+                decided[n.id] = self.ev(n.ast, val)
+
+        def succs(n: pf.Node, with_exc: bool) -> List[pf.Node]:
+            d = decided.get(n.id)
+            out = []
+            for s, lab in n.succ:
+                if lab == 'exc':
+                    if with_exc:
+                        out.append(s)
+                    continue
+                if d is True and lab == 'F':
+                    continue
+                if d is False and lab == 'T':
+                    continue
+                out.append(s)
+            return out
+        # possible: plain reachability (exceptional edges included)
+        seen = {g.entry.id}
+        stack = [g.entry]
+        possible = False
+        while stack:
+            n = stack.pop()
+            if n.id in targets:
+                possible = True
+                continue
+            for s in succs(n, True):
+                if s.id not in seen:
+                    seen.add(s.id)
+                    stack.append(s)
+        if not possible:
+            return 'no'
+        # definite: least fixpoint of  D(n) = n is the call, or every normal successor the valuation leaves open is in D.
+        # A statement that hands a subject of the requirement (the userdata, the membership answer) to some other callee may be a
+        # check that raises: nothing behind it is DEFINITELY reached.
+        opaque = set()
+        for n in g.nodes:
+            if n.id in targets or n.ast is None:
+                continue
+            for c in pf.node_calls(n):
+                if any(self.role(self.fn, a) is not None for a in list(c.args) + [k.value for k in c.keywords] if not isinstance(a, ast.Starred)):
+                    opaque.add(n.id)
+        D = set(targets)
+        changed = True
+        while changed:
+            changed = False
+            for n in g.nodes:
+                if n.id in D or n.id in opaque:
+                    continue
+                ss = succs(n, False)
+                if ss and all(s.id in D for s in ss):
+                    D.add(n.id)
+                    changed = True
+        return 'definite' if g.entry.id in D else 'possible'
+
+    def enforce(self, requirement, extra_atoms: Sequence[tuple]) -> Tuple[str, Optional[Dict[tuple, bool]]]:
+        """requirement(val) -> bool.  ('ok', None) | ('bad', witness valuation) | ('undecided', valuation)."""
+        if len(self.calls) == 0:
+            return 'undecided', None
+        und = None
+        for val in self.valuations(extra_atoms):
+            if requirement(val):
+                continue
+            r = self.reach(val)
+            if r == 'definite':
+                return 'bad', val
+            if r == 'possible' and und is None:
+                und = val
+        return ('undecided', und) if und is not None else ('ok', None)
+
+
+def show_valuation(val: Optional[Dict[tuple, bool]]) -> str:
+    if not val:
+        return ''
+    out = []
+    for k, v in val.items():
+        if k[0] == 'eq':
+            out.append(f"{k[1]} {'==' if v else '!='} {k[2]!r}")
+        else:
+            out.append(f"{k[1]} is {'truthy' if v else 'falsy'}")
+    return ', '.join(out)
+
+
+def subscript_role(fn: pf.FuncDef, e: ast.AST, base_name: str, base_role: str) -> Optional[str]:
+    """`<base>` -> base_role, `<base>['k']` -> base_role['k'] (locals bound to such an expression followed); None otherwise."""
+    e = pf.expand_locals(fn, e, 4)
+    if isinstance(e, ast.Name) and e.id == base_name:
+        return base_role
+    if isinstance(e, ast.Subscript) and isinstance(e.value, ast.Name) and e.value.id == base_name:
+        k = pf.const_str(e.slice)
+        if k is not None:
+            return f'{base_role}[{k!r}]'
+    return None
+
+
+def call_args_by_param(h: pf.FuncDef, call: ast.Call) -> Optional[Dict[str, ast.expr]]:
+    """parameter name of h -> argument expression of the call (positional and keyword); None with * / **."""
+    if any(isinstance(a, ast.Starred) for a in call.args) or any(k.arg is None for k in call.keywords):
+        return None
+    params = [a.arg for a in h.args.posonlyargs + h.args.args]
+    out: Dict[str, ast.expr] = {}
+    for i, a in enumerate(call.args):
+        if i >= len(params):
+            return None
+        out[params[i]] = a
+    for k in call.keywords:
+        out[k.arg] = k.value  # type: ignore[index]
+    return out
+
+
+# ---- structural reading of a single SELECT: alias map, equalities with their bound python values ---------------------------------
+
+class SelectFacts:
+    """Alias-independent facts of one SELECT scope: which base tables it ranges over and, for every conjunct `col = %s`, `col = col`,
+    `col = literal` of its WHERE clause and of the ON clauses of its joins, the (table, column) pairs involved (aliases resolved through
+    the FROM clause, unqualified columns through the schema)."""
+
+    def __init__(self, sel: N, schema: Dict[str, Set[str]], bind: Optional[Dict[int, ast.expr]] = None):
+        self.sel = sel
+        self.schema = schema
+        self.bind = bind or {}
+        self.alias: Dict[str, str] = {}
+        self.derived: Set[str] = set()
+        for r in sf.from_tables(sel.frm):
+            if r.kind == 'table':
+                self.alias[_lc(r.alias or r.name)] = r.name.lower()
+            else:
+                self.derived.add(_lc(getattr(r, 'alias', None) or '?'))
+        self.eq_param: List[Tuple[Tuple[str, str], N, str]] = []   # ((table, column), param node, where: 'where' | 'on:<alias>')
+        self.eq_col: List[Tuple[Tuple[str, str], Tuple[str, str], str]] = []
+        self.other: List[Tuple[N, str]] = []
+        self.unresolved: List[N] = []
+        for c in sf.conjuncts(sel.where):
+            self._conj(c, 'where')
+        for j in sel.frm.joins:
+            ja = _lc(getattr(j.ref, 'alias', None) or getattr(j.ref, 'name', '') or '?')
+            if j.on is not None:
+                for c in sf.conjuncts(j.on):
+                    self._conj(c, f'on:{ja}')
+
+    def col(self, c: N) -> Optional[Tuple[str, str]]:
+        """(alias, column) of a column reference; None when it cannot be attributed to one base table of this scope."""
+        parts = [_lc(p) for p in c.parts]
+        if len(parts) >= 2:
+            return (parts[-2], parts[-1]) if parts[-2] in self.alias else None
+        owners = [a for a, t in self.alias.items() if parts[-1] in self.schema.get(t, ())]
+        if len(owners) == 1:
+            return owners[0], parts[-1]
+        return None
+
+    def table_of(self, alias: str) -> str:
+        return self.alias.get(alias, alias)
+
+    def _conj(self, c: N, where: str) -> None:
+        if c.kind == 'bin' and c.op == '=':
+            l, r = c.left, c.right
+            if l.kind != 'col' and r.kind == 'col':
+                l, r = r, l
+            if l.kind == 'col':
+                lc = self.col(l)
+                if lc is None:
+                    self.unresolved.append(c)
+                    return
+                if r.kind == 'param':
+                    self.eq_param.append((lc, r, where))
+                    return
+                if r.kind == 'col':
+                    rc = self.col(r)
+                    if rc is None:
+                        self.unresolved.append(c)
+                        return
+                    self.eq_col.append((lc, rc, where))
+                    return
+        self.other.append((c, where))
+
+    def params_of(self, table: str, column: str) -> List[Tuple[N, str]]:
+        return [(p, w) for (a, c), p, w in self.eq_param if self.table_of(a) == table and c == column]
+
+    def joined_on(self, t1: str, c1: str, t2: str, c2: str) -> bool:
+        for (a, ca), (b, cb), _ in self.eq_col:
+            x, y = (self.table_of(a), ca), (self.table_of(b), cb)
+            if (x, y) == ((t1, c1), (t2, c2)) or (y, x) == ((t1, c1), (t2, c2)):
+                return True
+        return False
+
+
+def bind_params(fn: pf.FuncDef, st: N, call: ast.Call) -> Optional[Dict[int, ast.expr]]:
+    """position of every %s of the statement -> the python expression bound to it (argument tuple followed through a local)."""
+    params = sr.params_in_order(st)
+    args = call.args[1] if len(call.args) > 1 else next((k.value for k in call.keywords if k.arg in ('args', 'params', 'parameters')), None)
+    if args is None:
+        return {} if not params else None
+    elts = sr.args_tuple(fn, args)
+    if elts is None or len(elts) != len(params) or any(isinstance(x, ast.Starred) for x in elts):
+        return None
+    return {p.pos: x for p, x in zip(params, elts)}
+
+
+def param_call_sites(flow: PathFlow, scope_fns: Sequence[pf.FuncDef], owner: pf.FuncDef, name: str) -> List[Tuple[pf.FuncDef, ast.Call, Optional[ast.AST]]]:
+    """(caller, call, argument expression bound to parameter `name` of `owner`) for every call site in scope_fns (direct calls, keyword
+    arguments, runner calls `run(f, a, b)`); the argument is None when it cannot be singled out (* / ** / missing)."""
+    params = [a.arg for a in owner.args.posonlyargs + owner.args.args]
+    i = params.index(name) if name in params else None
+    out: List[Tuple[pf.FuncDef, ast.Call, Optional[ast.AST]]] = []
+    for f, c, offset in flow.call_sites(scope_fns).get(id(owner), []):
+        arg: Optional[ast.AST] = None
+        if offset == 0:
+            if i is not None and i < len(c.args):
+                arg = None if any(isinstance(a, ast.Starred) for a in c.args[:i + 1]) else c.args[i]
+            else:
+                arg = next((kw.value for kw in c.keywords if kw.arg == name), None)
+                if arg is None and i is not None:
+                    d0 = len(params) - len(owner.args.defaults)
+                    if i >= d0:
+                        arg = owner.args.defaults[i - d0]  # the default value
+        elif i is not None and offset + i < len(c.args):
+            arg = c.args[offset + i]
+        if isinstance(arg, ast.Starred):
+            arg = None
+        out.append((f, c, arg))
+    return out
+
+
+def param_args(flow: PathFlow, scope_fns: Sequence[pf.FuncDef], owner: pf.FuncDef, name: str) -> List[Tuple[pf.FuncDef, Optional[ast.AST]]]:
+    return [(f, a) for f, _, a in param_call_sites(flow, scope_fns, owner, name)]
